@@ -17,9 +17,9 @@ CHECK = dict(
     ],
     parallel_runs=2,
     fuzz_features_count=True,
-    floor={"asan:roundtrip_documents": 1000, "asan:sweep_documents": 100, "fuzz:fuzz_executions": 10000},
+    floor={"asan:roundtrip_documents": 1000, "asan:roundtrip_large_documents": 20, "asan:sweep_documents": 100, "fuzz:fuzz_executions": 10000},
     assumptions=[
-        "-max_len=4096 bounds nesting depth (the property bounds it too)",
+        "-max_len=4096 bounds nesting depth for the fuzzer; generated documents nest up to 40 levels and hold up to ~5000 nodes",
         "the faithful subset: identifiers [A-Za-z_][A-Za-z0-9_.]*, unique property names, values without the active quote and "
         "without backslash, at most one content run per node, comments between nodes only",
         "a comment is what the reader defines: \"<!--\", then anything up to the first \"-->\" (dash runs inside or right before the "
